@@ -1631,7 +1631,8 @@ pub fn nonechoable_ranges(d: &[u8]) -> Vec<(usize, usize, &'static str)> {
         let (s, e) = (f.offset + 4, f.offset + 4 + f.value.len());
         match f.type_id {
             EF_UNIQUE_ID | EF_V5_DRAFT_ID => {}
-            EF_NTS_COOKIE => out.push((s, e, "cookie")),
+            // key id + ciphertext length lead every cookie of the same key set: not content
+            EF_NTS_COOKIE => out.push(((s + 6).min(e), e, "cookie")),
             EF_NTS_AUTH => out.push((s, e, "authenticator")),
             EF_NTS_PLACEHOLDER => out.push((s, e, "placeholder")),
             EF_V5_PADDING => out.push((s, e, "padding")),
@@ -1661,6 +1662,39 @@ fn informative(w: &[u8]) -> bool {
 /// Does any informative 8-byte window of `source[range]` occur in one of the `haystacks`?
 /// Returns (offset in source, region label, which haystack).
 pub fn find_reflection(source: &[u8], ranges: &[(usize, usize, &'static str)], haystacks: &[&[u8]]) -> Option<(usize, &'static str, usize)> {
+    find_reflection_excluding(source, ranges, haystacks, &[])
+}
+
+/// Byte strings of a request that may legitimately come back: whole unique-identifier fields
+/// (header and value), the echoed timestamp / client cookie, the draft identification string.
+/// A window of a non-echoable region that *also* occurs in one of these (duplicated fields,
+/// retyped draft ids) proves nothing and is skipped by the scanner.
+pub fn echoable_material(d: &[u8]) -> Vec<Vec<u8>> {
+    let mut out = vec![hpkt::draft_version().as_bytes().to_vec()];
+    if let Some(p) = refntp::parse(d) {
+        if p.header.version == 5 {
+            out.push(d[24..32].to_vec());
+        } else {
+            out.push(d[40..48].to_vec());
+        }
+        if p.header.version != 3 {
+            for f in p.fields.iter().filter(|f| f.type_id == EF_UNIQUE_ID) {
+                out.push(d[f.offset..f.offset + 4 + f.value.len()].to_vec());
+            }
+        }
+    }
+    out
+}
+
+pub fn find_reflection_excluding(source: &[u8], ranges: &[(usize, usize, &'static str)], haystacks: &[&[u8]], exclude: &[Vec<u8>]) -> Option<(usize, &'static str, usize)> {
+    let mut skip = std::collections::HashSet::new();
+    for x in exclude {
+        if x.len() >= 8 {
+            for i in 0..=x.len() - 8 {
+                skip.insert(u64::from_be_bytes(x[i..i + 8].try_into().unwrap()));
+            }
+        }
+    }
     let mut set = std::collections::HashMap::new();
     for (k, h) in haystacks.iter().enumerate() {
         if h.len() >= 8 {
@@ -1679,8 +1713,9 @@ pub fn find_reflection(source: &[u8], ranges: &[(usize, usize, &'static str)], h
         }
         for i in *s..=e - 8 {
             let w = &source[i..i + 8];
-            if let Some(k) = set.get(&u64::from_be_bytes(w.try_into().unwrap())) {
-                if informative(w) {
+            let key = u64::from_be_bytes(w.try_into().unwrap());
+            if let Some(k) = set.get(&key) {
+                if informative(w) && !skip.contains(&key) {
                     return Some((i, label, *k));
                 }
             }
@@ -1821,4 +1856,46 @@ impl Drop for E2e {
     fn drop(&mut self) {
         self.task.abort();
     }
+}
+
+/// A client address that (by the monitor's own matcher) passes both lists, if one is found.
+pub fn gen_client_passing(rng: &mut Rng, cfg: &CfgSpec) -> Option<IpAddr> {
+    for _ in 0..24 {
+        let ip = gen_client(rng, cfg);
+        if list_verdict(&cfg.deny, ip) == ListVerdict::Out && list_verdict(&cfg.allow, ip) == ListVerdict::In {
+            return Some(ip);
+        }
+    }
+    None
+}
+
+/// Variants of a valid request that are *certainly* not to be answered: wrong mode, a version
+/// that does not exist, or cut below the 48-byte header.
+pub fn spoil(rng: &mut Rng, base: &Req) -> Req {
+    let mut r = base.clone();
+    r.truth.valid = false;
+    if let Some(n) = r.truth.nts.as_mut() {
+        n.auth_ok = None;
+    }
+    match rng.below(3) {
+        0 => {
+            let m = *rng.pick(&[0u8, 1, 2, 4, 5, 6, 7]);
+            r.bytes[0] = (r.bytes[0] & !7) | m;
+            r.truth.mode = m;
+            r.truth.class = format!("spoil/mode/{}", base.truth.class);
+        }
+        1 => {
+            let v = *rng.pick(&[0u8, 1, 2, 6, 7]);
+            r.bytes[0] = (r.bytes[0] & !0x38) | (v << 3);
+            r.truth.version = v;
+            r.truth.class = format!("spoil/version/{}", base.truth.class);
+        }
+        _ => {
+            let n = rng.usize(0, 47);
+            r.bytes.truncate(n);
+            r.truth.class = format!("spoil/short/{}", base.truth.class);
+        }
+    }
+    r.truth.shape ^= 0x5b01;
+    r
 }
